@@ -295,6 +295,17 @@ def prove_scenario(scn, *, seed=0, crosscheck=2, max_paths=4000, timeout_ms=1000
                     raise Refuted("the code under contract raises inside its precondition: %s: %s" % (type(e2).__name__, e2),
                                   witness={"env": env, "error": "%s: %s" % (type(e2).__name__, e2)},
                                   replay=_with_env(replay, env), confirmed=True)
+                else:
+                    # no exception concretely: the symbolic error may stand for a non-finite value
+                    # (log 0, division by 0) that torch returns silently
+                    try:
+                        bad = [c[1] for c in scn(MkNum(env)) if not _num_claim_holds(c, rtol)]
+                    except Exception:
+                        bad = []
+                    if bad:
+                        raise Refuted("symbolic evaluation is undefined (%s: %s) and the real code returns values violating %s at %s"
+                                      % (type(e).__name__, e, bad, env), witness={"env": env, "claims": bad},
+                                      replay=_with_env(replay, env), confirmed=True)
                 break
             raise RuntimeError("symbolic run raised but the concrete run does not (shim fault?):\n" + tb)
         return claims, mk
